@@ -46,3 +46,11 @@ mod c35_nts;
 mod c36_nts;
 #[cfg(any(not(verif_select), verif_gr))]
 mod c05_pps;
+#[cfg(any(not(verif_select), verif_gs))]
+mod c08_task;
+#[cfg(any(not(verif_select), verif_gs))]
+mod c09_task;
+#[cfg(any(not(verif_select), verif_gs))]
+mod c10_task;
+#[cfg(any(not(verif_select), verif_gs))]
+mod c11_task;
